@@ -1081,6 +1081,45 @@ pub fn extras(thorough: bool) -> Vec<Extra> {
             });
         }
     }
+    // (m) VALUES tables in FROM: 1..3 columns x 1..2 rows (MySQL writes ROW(..) rows, PostgreSQL and SQLite plain rows)
+    for cols in 1..=3usize {
+        for rows in 1..=2usize {
+            v.push(Extra {
+                name: format!("values-table {cols} columns {rows} rows"),
+                real: Box::new(move |d, build| {
+                    let mut q = Query::select();
+                    q.column(Asterisk);
+                    match cols {
+                        1 => q.from_values((0..rows).map(|r| 10 + r as i32).collect::<Vec<_>>(), a("vv")),
+                        2 => q.from_values((0..rows).map(|r| (10 + r as i32, 7i32)).collect::<Vec<_>>(), a("vv")),
+                        _ => q.from_values((0..rows).map(|r| (10 + r as i32, 7i32, 8i32)).collect::<Vec<_>>(), a("vv")),
+                    };
+                    render_sel(&q, d, build)
+                }),
+                reference: Box::new(move |d, build| {
+                    let mut n = 0;
+                    let mut p = |lit: String| {
+                        n += 1;
+                        ph(d, build, n, &lit)
+                    };
+                    let row = if d == Dialect::Mysql { "ROW" } else { "" };
+                    let rs: Vec<String> = (0..rows)
+                        .map(|r| {
+                            let mut cells = vec![p(format!("{}", 10 + r))];
+                            if cols >= 2 {
+                                cells.push(p("7".into()));
+                            }
+                            if cols >= 3 {
+                                cells.push(p("8".into()));
+                            }
+                            format!("{row}({})", cells.join(", "))
+                        })
+                        .collect();
+                    Some(format!("SELECT * FROM (VALUES {}) AS {}", rs.join(", "), qd(d, "vv")))
+                }),
+            });
+        }
+    }
     // (l) window frames: unit x start x optional end (40 forms), inline OVER ( .. ) and in a named WINDOW
     {
         let bounds = ["UNBOUNDED PRECEDING", "1 PRECEDING", "CURRENT ROW", "2 FOLLOWING", "UNBOUNDED FOLLOWING"];
@@ -1300,7 +1339,7 @@ pub fn extras(thorough: bool) -> Vec<Extra> {
 /// one construct = one key: the family name (for the parameterised families the first word)
 pub fn family_of(name: &str) -> String {
     let first = name.split(' ').next().unwrap_or("").to_string();
-    if ["index-hints", "named-window", "with", "lock", "tablesample", "distinct-on", "order-by", "window-frame"].contains(&first.as_str()) {
+    if ["index-hints", "named-window", "with", "lock", "tablesample", "distinct-on", "order-by", "window-frame", "values-table"].contains(&first.as_str()) {
         first
     } else {
         name.split(' ').take(2).collect::<Vec<_>>().join(" ")
